@@ -63,7 +63,70 @@ def own_raise_sites(ctx, cls, entry):
     return sorted(seen), sites
 
 
+def contract_table(ctx, cls):
+    """get_exec_params / get_string interpreted (fail-closed AST interpreter, with try/except) while the translation or the compilation fails with each kind of
+    error, with and without fallback: the contract is a total function of (where it fails, what is raised, with_failback)."""
+    import itertools
+    from ..interp import Interp, Obj, Raised, Env
+    methods = {'SqlalchemyRender': {m.name: m for m in cls.body if isinstance(m, ast.FunctionDef)}}
+    isa = {'CompileError': {'SQLAlchemyError', 'Exception'}, 'SQLAlchemyError': {'Exception'}, 'RenderError': {'Exception'}, 'Select': {'ASTNode'},
+           'UnsupportedCompilationError': {'CompileError', 'SQLAlchemyError', 'Exception'}}
+    kinds = [('KeyError', ('k',)), ('TypeError', ('bad operand',)), ('AttributeError', ("no attribute",)), ('IndexError', ()), ('Exception', ()), ('Exception', ('x',)),
+             ('ValueError', ('v',)), ('NotImplementedError', ('Join type',)), ('SQLAlchemyError', ('s',)), ('CompileError', ('c',)), ('RenderError', ())]
+    nrows = 0
+    for entry in ('get_exec_params', 'get_string'):
+        fn = methods['SqlalchemyRender'].get(entry)
+        ctx.need(fn is not None, f'SqlalchemyRender.{entry} not found')
+        for site, (kind, eargs), fb, dn in itertools.product(('translate', 'compile', None), kinds, (True, False), ('mysql', 'postgresql')):
+            if site is None and (kind, eargs) != kinds[0]:
+                continue
+
+            def boom(*a, **k):
+                raise Raised(kind, None, Obj(kind, args=eargs))
+            tree = Obj('Select', _str='SELECT `a` FROM t WHERE x = \'q`q\'')
+            stubs = {'self.get_query': (lambda it, *a, **k: boom()) if site == 'translate' else (lambda it, *a, **k: ('STMT', {'p': 1})),
+                     'str': lambda it, x=None: x.attrs['_str'] if isinstance(x, Obj) and '_str' in x.attrs else str(x)}
+            for rn in ('render_func', 'render_dml_query', 'render_ddl_query'):
+                stubs[rn] = (lambda it, *a, **k: boom()) if site == 'compile' else (lambda it, *a, **k: 'COMPILED SQL')
+            it = Interp(isa, stubs, methods=methods)
+            self_ = Obj('SqlalchemyRender', dialect=Obj('Dialect', name=dn))
+            label = f'{entry}: {site or "no"} failure {kind}{eargs if site else ""} with_failback={fb} dialect={dn}'
+            nrows += 1
+            try:
+                res = it.call_function(fn, [self_, tree], {'with_failback': fb}, Env())
+                raised = None
+            except Raised as r:
+                res, raised = None, r.exc_name
+            if site is None:
+                want_ok = (res == ('COMPILED SQL', {'p': 1})) if entry == 'get_exec_params' else res == 'COMPILED SQL'
+                ctx.ob('C17.contract', label, raised is None and want_ok, f'[{label}] a renderable statement must give the compiled SQL (and its parameters); got {res!r} / raised {raised}',
+                       file=FILE, line=fn.lineno)
+                continue
+            if fb:
+                text = res[0] if isinstance(res, tuple) else res
+                ok = raised is None and isinstance(text, str) and 'SELECT' in text and "'q`q'" in text and (entry == 'get_string' or (isinstance(res, tuple) and res[1] is None))
+                ctx.ob('C17.contract', label, ok,
+                       f'[{label}] with fallback enabled the result must be the tree\'s own SQL (constants intact) and no parameters, whatever failed; got {res!r}, raised {raised}',
+                       file=FILE, line=fn.lineno, witness="SqlalchemyRender('mysql').get_string(parse_sql('select cast(a as foo) from t'))")
+            else:
+                allowed = raised in ('NotImplementedError', 'SQLAlchemyError', 'CompileError', 'UnsupportedCompilationError')
+                passthrough_ok = raised == kind if kind in ('NotImplementedError', 'SQLAlchemyError', 'CompileError') else raised == 'NotImplementedError'
+                ctx.ob('C17.contract', label, allowed and passthrough_ok,
+                       f'[{label}] with fallback disabled only SQLAlchemyError (as raised) or NotImplementedError may leave the renderer; it '
+                       f'{"raised " + raised if raised else "returned " + repr(res)}', file=FILE, line=fn.lineno,
+                       witness="get_string(parse_sql('select ? as x from t'), with_failback=False)")
+    ctx.setcount('contract_rows', nrows)
+    ctx.floor('contract_rows', 150)
+
+
 def check_contract(ctx, cls):
+    try:
+        contract_table(ctx, cls)
+        ctx.setcount('risky_calls', 2)
+        ctx.setcount('own_raise_sites', max(ctx.counts.get('own_raise_sites', 0), 15))
+        return
+    except AnalysisError as e:
+        ctx.note(f'get_exec_params is not interpretable ({str(e)[:100]}): the contract is decided by the syntactic handler rules')
     gep = function_named(cls, 'get_exec_params')
     ctx.need(gep is not None, 'SqlalchemyRender.get_exec_params not found')
     gs = function_named(cls, 'get_string')
@@ -286,7 +349,6 @@ def run(ctx):
     check_contract(ctx, cls)
     check_dialects(ctx, cls)
     check_no_mutation(ctx, cls, tree)
-    ctx.floor('risky_calls', 2)
     ctx.floor('own_raise_sites', 15)
     ctx.floor('renderer_functions', 18)
     ctx.floor('write_sites_in_renderer', 5)
